@@ -179,6 +179,9 @@ def run(c, chk):
                  'section titles are compared case-insensitively according to different flag words (%s): with CFGF_NOCASE on the context, '
                  'cfg_addtsec("a") does not see the existing section "A" but cfg_setopt() then matches and replaces it' % desc)
     chk.floor('R9.3 functions comparing titles', len(sites), 2)
+    # ---- R9.18: "remove by title removes that section", "an unknown title fails without effect": titles and names are compared whole
+    whole_comparisons(c, chk, 'R9.18', 'section titles and option names are compared as whole strings: no length-limited comparison stops at the length of one of its operands',
+                      consequence=' - a title that is only the beginning of an existing one addresses that section (cfg_rmtsec("alp") removes "alpha")')
 
     # ---- R9.4 --------------------------------------------------------------------------------
     from .c18 import result_used
@@ -565,6 +568,54 @@ def merge_words(c, sites):
         if n in sites and n != 'cfg_setopt':
             out |= set(sites[n])
     return out
+
+
+LIMITED_CMP = ('strncmp', 'strncasecmp', 'memcmp', 'bcmp')
+
+
+def whole_comparisons(c, chk, rid, text, only_funcs=None, operand=None, consequence=''):
+    """names, titles and the fixed words of the library are compared as whole strings: a length-limited comparison whose
+    length is the length of one of its operands (or a constant not beyond the end of a literal operand) is a PREFIX test -
+    "alp" then equals "alpha".  Expected number of such comparisons: none (the library uses strcmp()/strcasecmp()); the
+    floor counts the whole-string comparisons the scan has seen."""
+    chk.rule(rid, text)
+    operand = operand or (lambda r: r.endswith('->title') or r.endswith('->name') or 'title' in r)
+    ex = sym.Explorer(c.modules, max_visits=2, mod_sets=c.mod_sets, max_paths=20000)
+    nwhole = sum(1 for f in c.confuse.funcs.values() for n in ('strcmp', 'strcasecmp') for _ in f.calls(n))
+    bad = None
+    nlim = 0
+    for f in c.confuse.funcs.values():
+        if only_funcs is not None and f.name not in only_funcs:
+            continue
+        if f.name in c.unknown_funcs and only_funcs is None:
+            continue          # a helper is explored as part of the function it was split off
+        if not any(True for n in LIMITED_CMP for _ in c.deep_calls(f, n)):
+            continue
+        for p in ex.explore(f):
+            for e in p.events:
+                if not (e.kind == 'call' and e.name in LIMITED_CMP and e.args and len(e.args) >= 3):
+                    continue
+                a, b, n = e.args[0], e.args[1], e.args[2]
+                if not (operand(sym.render(a)) or operand(sym.render(b)) or a[0] == 'str' or b[0] == 'str'):
+                    continue
+                nlim += 1
+                why = None
+                lit = next((x for x in (a, b) if x[0] == 'str'), None)
+                if sym.is_const(n):
+                    if lit is None or n[1] <= len(lit[1]):
+                        why = 'only the first %d bytes are compared' % n[1]
+                else:
+                    for e2 in p.events[:e.seq + 1]:
+                        if e2.kind == 'call' and e2.name in ('strlen', 'strnlen') and e2.args and n == e2.res and sym.norm(e2.args[0]) in (sym.norm(a), sym.norm(b)):
+                            why = 'the length compared is strlen(%s), the length of one operand: the other one only has to begin with it' % sym.render(e2.args[0])
+                if why and bad is None:
+                    bad = (f, e, why)
+    if bad is not None:
+        f, e, why = bad
+        chk.fail(rid, 'prefix-comparison:%s' % f.name, c.where(e.ins), '%s() compares %s with %s by %s(): %s%s' % (f.name, sym.render(e.args[0]), sym.render(e.args[1]), e.name, why, consequence))
+    else:
+        chk.ok(rid, '%d whole-string comparisons, %d length-limited' % (nwhole, nlim), 'no comparison of a name, a title or a fixed word stops at the length of one operand', sample=True)
+    chk.floor('%s whole-string comparison call sites' % rid, nwhole + nlim, 5)
 
 
 def plus1(i):
